@@ -548,6 +548,10 @@ class DictCase:
                 out.append(("pset", k, v))
             out += [("pget", k), ("ppop", k), ("ppopd", k), ("pdel", k)]
         out += [("piter",), ("pvalues",)]
+        # the MutableMapping mix-ins, built on the methods above
+        out += [("pitems",), ("ppopitem",), ("pclear",)]
+        for k in range(3):
+            out += [("pgetd", k), ("pin", k), ("psetdef", k, k % 2)]
         if python_only:
             return out
         for k in range(3):
@@ -562,7 +566,8 @@ class DictCase:
 
     @staticmethod
     def readonly(op):
-        return op[0] in ("pget", "piter", "pvalues", "lookup")
+        return op[0] in ("pget", "piter", "pvalues", "lookup", "pitems",
+                         "pgetd", "pin")
 
     def _key(self, k):
         o = self.Key()
@@ -603,6 +608,23 @@ class DictCase:
                 return ("ok", tuple(sorted(self._kt(k) for k in d)))
             if kind == "pvalues":
                 return ("ok", tuple(sorted(self._vt(v) for v in d.values())))
+            if kind == "pitems":
+                return ("ok", tuple(sorted((self._kt(k), self._vt(v))
+                                           for k, v in d.items())))
+            if kind == "ppopitem":
+                k, v = d.popitem()
+                return ("ok", (self._kt(k), self._vt(v)))
+            if kind == "pclear":
+                d.clear()
+                return ("ok",)
+            if kind == "pgetd":
+                r = d.get(self._key(op[1]), "default")
+                return ("ok", r if r == "default" else self._vt(r))
+            if kind == "pin":
+                return ("ok", self._key(op[1]) in d)
+            if kind == "psetdef":
+                return ("ok", self._vt(d.setdefault(self._key(op[1]),
+                                                    self._value(op[2]))))
         except Exception as ex:
             if isinstance(ex, simkernel.SimTrap):
                 raise
@@ -642,7 +664,10 @@ def dict_expected(case, pre, op):
     room, so every outcome "some entries vanish first, then the operation
     acts on the rest" is accepted as long as the size limit holds"""
     cfg = case.cfg
-    if cfg["lru"] and len(pre) >= cfg["size"] and op[0] in ("pset", "upd"):
+    lru_write = op[0] in ("pset", "upd") or (
+        op[0] == "psetdef" and
+        enc(case.kf, case.keys[op[1]]) not in dict(pre))
+    if cfg["lru"] and len(pre) >= cfg["size"] and lru_write:
         alts = []
         keys = [k for k, _ in pre]
         for n in range(len(keys) + 1):
@@ -651,6 +676,14 @@ def dict_expected(case, pre, op):
                 r, ref, _ = dict_expected1(case, rest, op, nolimit=True)
                 if len(ref) <= cfg["size"] and (r, ref) not in alts:
                     alts.append((r, ref))
+        return alts
+    if op[0] == "ppopitem" and pre:
+        # any entry may be the one that goes
+        alts = []
+        for k, v in pre:
+            ref = dict(pre)
+            del ref[k]
+            alts.append((("ok", (dec(case.kf, k), dec(case.vf, v))), ref))
         return alts
     r, ref, _ = dict_expected1(case, pre, op)
     return [(r, ref)]
@@ -668,6 +701,13 @@ def dict_expected1(case, pre, op, nolimit=False):
         if kind == "piter":
             return ("ok", tuple(sorted(dec(kf, k) for k in ref))), ref, False
         return ("ok", tuple(sorted(dec(vf, v) for v in ref.values()))), ref, False
+    if kind == "pitems":
+        return ("ok", tuple(sorted((dec(kf, k), dec(vf, v))
+                                   for k, v in ref.items()))), ref, False
+    if kind == "ppopitem":      # only reached for an empty map
+        return ("exc", "KeyError"), ref, False
+    if kind == "pclear":
+        return ("ok",), {}, False
     kidx = op[2] if kind == "upd" else op[1]
     kb = enc(kf, case.keys[kidx])
     if kind == "pset":
@@ -690,6 +730,17 @@ def dict_expected1(case, pre, op, nolimit=False):
             return ("exc", "KeyError"), ref, False
         del ref[kb]
         return ("ok",), ref, False
+    if kind == "pgetd":
+        return ("ok", dec(vf, ref[kb]) if kb in ref else "default"), ref, False
+    if kind == "pin":
+        return ("ok", kb in ref), ref, False
+    if kind == "psetdef":
+        if kb in ref:
+            return ("ok", dec(vf, ref[kb])), ref, False
+        if full:
+            return ("exc", "IndexError"), ref, False
+        ref[kb] = enc(vf, case.values[op[2]])
+        return ("ok", dec(vf, ref[kb])), ref, False
     if kind == "upd":
         fl = {1: 0, 2: 1, 3: 2}[op[1]]
         vb = enc(vf, case.values[op[3]])
@@ -801,8 +852,9 @@ def explore_dict(cfg, depth, backend_cls, res, sink, python_only=False,
                             if loose:
                                 sink(c2, [[a, sorted(c.items())]
                                           for a, c in alts][:4],
-                                     [r, list(post)], "dict-lru-" + op[0],
-                                     note=f"{op} on a full LRU map")
+                                     [r, list(post)], "dict-any-" + op[0],
+                                     note=f"{op} with several acceptable "
+                                     "outcomes (full LRU map / popitem)")
                             elif r != er:
                                 sink(c2, er, r, "dict-" + op[0], kf=kf,
                                      note=f"result of {op} in state of "
